@@ -120,7 +120,194 @@ def _expr(fx, x, recv_lid, arg_lids):
     return ("?", k)
 
 
-def run(ck, fx, cg, tier):
+# ----------------------------------------------------------------------------------- symbolic cell evaluation
+
+POINTER = "bytecode::heap::Pointer"
+
+
+def cell_paths(fx, path, tname, name, kind):
+    """Execute the VM's method dispatch symbolically for one cell: a primitive receiver of the table's kind,
+    a concrete method name, one argument of the given kind with a symbolic payload. Everything is inlined
+    (the common entry point dispatch_method is used, so a spelling that is canonicalised before the tables is
+    still found, and helpers / refactorings do not matter). The value pushed on the operand stack is the result."""
+    from ..symex import Executor, State, lit as L
+    from ..vm_scheme import VMClient
+    from .c05_vm import events
+    b = fx.body(A.get("dispatch_method"))
+    ex = Executor(fx, VMClient(track_builtins=False))
+    arg = ("ctor", POINTER, kind, () if kind == "Null" else (("0", ("var", "argument")),))
+    rk = {"integer": "Integer", "boolean": "Boolean", "null": "Null"}[tname]
+    recv = ("ctor", POINTER, rk, () if rk == "Null" else (("0", ("var", "receiver")),))
+    args = []
+    for p in b["params"]:
+        nm = p.get("name")
+        if nm == "method_name":
+            args.append(L(name))
+        elif nm == "argument_pointers":
+            args.append(("app", "array", (arg,)))
+        elif nm == "receiver_pointer":
+            args.append(recv)
+        else:
+            args.append(("var", nm))
+    res = ex.run_body(b, args, State())
+    out = []
+    for s_, o in res:
+        if o[0] == "val" and isinstance(o[1], tuple) and o[1][0] == "ok":
+            pushes = [e for e in events(s_.eff) if e["e"] == "push"]
+            if len(pushes) == 1:
+                o = ("val", ("ok", pushes[0]["val"]))
+            else:
+                o = ("val", ("ok", ("unknown", "%d pushes" % len(pushes))))
+        out.append({"eff": s_.eff, "out": o})
+    return out
+
+
+def _origin_call(effs, term):
+    t = term
+    while isinstance(t, tuple) and t and t[0] == "payload":
+        t = t[1]
+    for e in effs:
+        if e["k"] == "call" and e.get("res") == t:
+            return e["args"][0][1].rsplit("::", 1)[-1], e["args"][1:]
+    return None, None
+
+
+def classify_paths(paths):
+    """→ (successes [(head, operands, assumptions)], failures [assumption texts])"""
+    from ..symdbg import fmt_term
+    succ, fail = [], []
+    for p in paths:
+        o = p["out"]
+        assumes = [(fmt_term(e["args"][0]), e["args"][1] == ("lit", True)) for e in p["eff"] if e["k"] == "assume"]
+        if o[0] == "val" and isinstance(o[1], tuple) and o[1][0] == "ok":
+            v = o[1][1]
+            if v[0] == "ctor" and v[1] == POINTER and v[2] in ("Integer", "Boolean") and v[3]:
+                t = v[3][0][1]
+                if t[0] == "lit":
+                    succ.append(("const", t[1], assumes))
+                elif t[0] == "app":
+                    succ.append((t[1], t[2], assumes))
+                elif t[0] == "payload":
+                    nm, a = _origin_call(p["eff"], t)
+                    succ.append((nm or "?", tuple(a or ()), assumes))
+                else:
+                    succ.append(("?" + str(t[0]), (), assumes))
+            elif v[0] == "ctor" and v[1] == POINTER and v[2] == "Null":
+                succ.append(("null", (), assumes))
+            else:
+                succ.append(("?value", (), assumes))
+        else:
+            fail.append(assumes)
+    return succ, fail
+
+
+RECV_ARG = (("var", "receiver"), ("var", "argument"))
+ACCEPT = {
+    ("int", "add"): {"add", "wrapping_add"}, ("int", "sub"): {"sub", "wrapping_sub"}, ("int", "mul"): {"mul", "wrapping_mul"},
+    ("int", "div"): {"div", "checked_div"}, ("int", "rem"): {"rem", "wrapping_rem", "checked_rem"},
+    ("cmp", "le"): {"le"}, ("cmp", "ge"): {"ge"}, ("cmp", "lt"): {"lt"}, ("cmp", "gt"): {"gt"}, ("cmp", "eq"): {"eq"}, ("cmp", "ne"): {"ne"},
+    ("logic", "and"): {"and", "bitand"}, ("logic", "or"): {"or", "bitor"},
+}
+
+
+def judge(want, succ, fail):
+    """compare a cell's symbolic outcome with S4 → (ok, description, why)"""
+    desc = "; ".join("%s(%s)" % (h, ", ".join(_t(a) for a in ops)) if not isinstance(ops, bool) and h != "const" else "const %s" % ops for h, ops, _ in succ) or "fails"
+    if want[0] == "fail":
+        return (not succ), desc, "S4 demands failure, but a path completes with a value"
+    if not succ:
+        return False, desc, "S4 defines a result, but every path fails"
+    if want[0] == "const":
+        ok = all(h == "const" and ops is want[1] for h, ops, _ in succ) and not fail
+        return ok, desc, "S4 says constant %s (and no failure)" % str(want[1]).lower()
+    forms = ACCEPT[(want[0], want[1])]
+    for h, ops, assumes in succ:
+        if h not in forms:
+            extra = ""
+            if want[1] == "div" and h in ("wrapping_div", "overflowing_div"):
+                extra = " — %s returns MIN for MIN / -1 instead of failing" % h
+            if want[1] == "rem" and h in ("rem_euclid",):
+                extra = " — rem_euclid is never negative; S4 takes the dividend's sign"
+            return False, desc, "`%s` is not %s as specified (accepted forms: %s)%s" % (h, want[1], sorted(forms), extra)
+        if tuple(ops[:2]) != RECV_ARG:
+            return False, desc, "operands are (%s), expected (receiver, argument)" % ", ".join(_t(a) for a in ops)
+    # explicit failure paths: only division/remainder may fail, and only on a zero divisor (or MIN/-1)
+    if fail:
+        if want[1] not in ("div", "rem"):
+            return False, desc, "the operation is not total: it fails under %s" % (fail[0][-1:] or "some condition")
+        for assumes in fail:
+            conds = [t for t, v in assumes if "argument" in t]
+            if not conds:
+                return False, desc, "fails under a condition that is not about the divisor: %s" % (assumes[-1:],)
+    return True, desc, ""
+
+
+def _t(x):
+    from ..symdbg import fmt_term
+    return fmt_term(x) if isinstance(x, tuple) else str(x)
+
+
+def _tables(ck, fx, cg, feeny=False, rule="R9.table"):
+    specs = [("integer", A.get("dispatch_integer"), set(INT_ARITH) | set(INT_CMP) | set(EQ)),
+             ("boolean", A.get("dispatch_boolean"), set(BOOL_LOGIC) | set(EQ)),
+             ("null", A.get("dispatch_null"), set(EQ))]
+    total_cells = 0
+    for tname, path, need_names in specs:
+        b = fx.body(path)
+        if not ck.anchor(rule, path, b):
+            continue
+        ck.fn(path)
+        ms = [m for m in find_matches(b) if peel(m["scrut"]).get("k") == "Tup"]
+        if not ck.anchor(rule, "%s: match on (name, argument)" % tname, ms or None):
+            continue
+        m = ms[0]
+        T = Table(fx, m)
+        if not T.ok or T.arity != 2:
+            ck.ob(rule, tname + "|shape", False, loc(m), "table is not a 2-component literal/variant match (unprovable)")
+            continue
+        T.enum_variants = [None, KINDS]
+        recv_lid = b["params"][0]["lid"] if tname != "null" and b["params"] and b["params"][0].get("k") == "Binding" else None
+        names = sorted(n_ for n_ in need_names if n_ in FML_SPELLINGS) + sorted(
+            l for l in T.lits[0] if isinstance(l, str) and l not in need_names) + [OTHER]
+        if feeny:
+            names = sorted(n_ for n_ in need_names if n_ not in FML_SPELLINGS)
+        for name in names:
+            for kind in KINDS:
+                total_cells += 1
+                key = "%s|%s × %s" % (tname, name, kind)
+                want = expected(tname, name if name != OTHER else "<other>", kind)
+                try:
+                    paths = cell_paths(fx, path, tname, name if name != OTHER else "\u27e8other\u27e9", kind)
+                    succ, fail = classify_paths(paths)
+                    ok, desc, why = judge(want, succ, fail)
+                    ck.ob(rule, key, ok, loc(m), "%s; S4: %s%s" % (desc, _show(want), "" if ok else " — " + why))
+                    if len(ck.samples) < 14 and name in ("+", "/", "eq", "&", OTHER, "=="):
+                        ck.sample({"rule": rule, "cell": key, "outcome": desc, "expected": _show(want)})
+                    continue
+                except Exception as e:  # fall back to pattern-level evaluation
+                    ck.note("symbolic evaluation of cell %s failed (%s: %s); falling back to first-match table evaluation" % (key, type(e).__name__, str(e)[:80]))
+                cell = (name, ("variant", kind))
+                ai = T.first_match(cell)
+                if ai is None or ai < 0:
+                    ck.ob(rule, key, False, loc(m), "cannot decide the first matching arm (unprovable)" if ai is None else "no arm matches")
+                    continue
+                arm = m["arms"][ai]
+                arg_lids = set()
+                _bindings(arm["pat"], arg_lids)
+                got = summarise(fx, arm["body"], recv_lid, arg_lids)
+                ok, why = _agree(got, want)
+                ck.ob(rule, key, ok, loc(arm["body"]), "arm %d: %s; S4: %s%s" % (ai, _show(got), _show(want), "" if ok else " — " + why),
+                      nontrivial=True)
+        # sibling agreement operator ↔ Feeny spelling: same arm action for every kind (implied by S4, reported explicitly)
+    ck.floor(rule, "table cells evaluated", total_cells, 68 if feeny else 80)
+
+
+FML_SPELLINGS = {"+", "-", "*", "/", "%", "<=", ">=", "<", ">", "==", "!=", "&", "|"}
+
+
+def run(ck, fx, cg, tier, feeny=False, rule="R9.table"):
+    if feeny:
+        return _tables(ck, fx, cg, feeny=True, rule=rule)
     ck.explanation = (
         "The built-in operations are finite decision tables: `match (method name, argument kind)` in the three "
         "dispatch functions. Pattern-matching semantics (first match, or-patterns, guards) are evaluated over the "
@@ -134,51 +321,9 @@ def run(ck, fx, cg, tier):
         "check zero/overflow unconditionally. LLVM trusted.")
     ck.trusted_base = ["rustc resolution/type check", "fml-facts dumper", "Rust operator semantics on i32 (/, % panic on zero and MIN/-1 in every profile; plain + - * follow overflow-checks)",
                        "S4 table (README operator tables + property statement)"]
-    specs = [("integer", A.get("dispatch_integer"), set(INT_ARITH) | set(INT_CMP) | set(EQ)),
-             ("boolean", A.get("dispatch_boolean"), set(BOOL_LOGIC) | set(EQ)),
-             ("null", A.get("dispatch_null"), set(EQ))]
-    total_cells = 0
-    for tname, path, need_names in specs:
-        b = fx.body(path)
-        if not ck.anchor("R9.table", path, b):
-            continue
-        ck.fn(path)
-        ms = [m for m in find_matches(b) if peel(m["scrut"]).get("k") == "Tup"]
-        if not ck.anchor("R9.table", "%s: match on (name, argument)" % tname, ms or None):
-            continue
-        m = ms[0]
-        T = Table(fx, m)
-        if not T.ok or T.arity != 2:
-            ck.ob("R9.table", tname + "|shape", False, loc(m), "table is not a 2-component literal/variant match (unprovable)")
-            continue
-        T.enum_variants = [None, KINDS]
-        recv_lid = b["params"][0]["lid"] if tname != "null" and b["params"] and b["params"][0].get("k") == "Binding" else None
-        names = T.cells(0, extra=need_names)
-        missing = sorted(need_names - T.lits[0])
-        ck.ob("R5.spellings" if False else "R9.table", tname + "|spellings present", not missing, loc(m),
-              "spellings handled: %s%s" % (sorted(T.lits[0], key=str), "" if not missing else "; MISSING: %s" % missing))
-        for name in names:
-            for kind in KINDS:
-                cell = (name, ("variant", kind))
-                ai = T.first_match(cell)
-                total_cells += 1
-                key = "%s|%s × %s" % (tname, name, kind)
-                if ai is None or ai < 0:
-                    ck.ob("R9.table", key, False, loc(m), "cannot decide the first matching arm (unprovable)" if ai is None else "no arm matches")
-                    continue
-                arm = m["arms"][ai]
-                # argument binding(s) of component 1 in this arm
-                arg_lids = set()
-                _bindings(arm["pat"], arg_lids)
-                got = summarise(fx, arm["body"], recv_lid, arg_lids)
-                want = expected(tname, name if name != OTHER else "<other>", kind)
-                ok, why = _agree(got, want)
-                ck.ob("R9.table", key, ok, loc(arm["body"]), "arm %d: %s; S4: %s%s" % (ai, _show(got), _show(want), "" if ok else " — " + why),
-                      nontrivial=True)
-                if len(ck.samples) < 14 and name in ("+", "/", "eq", "&", OTHER, "=="):
-                    ck.sample({"rule": "R9.table", "cell": key, "arm": ai, "action": _show(got), "expected": _show(want)})
-        # sibling agreement operator ↔ Feeny spelling: same arm action for every kind (implied by S4, reported explicitly)
-    ck.floor("R9.table", "table cells evaluated", total_cells, 148)
+    from .. import canary
+    canary.require(ck, {'Rx.cfg', 'Rx.profile'})
+    _tables(ck, fx, cg, feeny=False, rule="R9.table")
     # ---------------------------------------------------------------- profile independence
     n_sites = 0
     roots = cg.dids_of(A.get("dispatch_method")) + cg.dids_of(A.get("evaluate_with"))
